@@ -4,19 +4,9 @@ use syn::{Result, Token, parse::Parse, parse::ParseStream};
 
 thread_local! {
     static NODE_ID_COUNTER: Cell<usize> = const { Cell::new(0) };
-
-    /// Nesting depth of the speculative (forked) pattern parses currently running.
-    static SPECULATIVE_DEPTH: Cell<usize> = const { Cell::new(0) };
 }
 
 pub(crate) fn next_node_id() -> usize {
-    // A pattern parsed from a fork only tells the caller how to parse the real
-    // input and is then dropped, so don't spend ids on it. `usize::MAX` marks a
-    // pattern that has no node of its own (see `generate_pattern_nodes`).
-    if SPECULATIVE_DEPTH.with(Cell::get) > 0 {
-        return usize::MAX;
-    }
-
     NODE_ID_COUNTER.with(|counter| {
         let id = counter.get();
         counter.set(id + 1);
@@ -26,18 +16,6 @@ pub(crate) fn next_node_id() -> usize {
 
 fn reset_node_counter() {
     NODE_ID_COUNTER.with(|counter| counter.set(0));
-}
-
-/// Parses a `T` from a forked stream as lookahead, without handing out node ids.
-///
-/// Tuple elements are parsed once on a fork to tell positional from indexed
-/// elements and then again for real. Without this, every nesting level burned a
-/// whole sub-pattern worth of ids, leaving the `__PATTERN_NODE_n` names sparse.
-pub(crate) fn parse_speculative<T: Parse>(fork: ParseStream) -> Result<T> {
-    SPECULATIVE_DEPTH.with(|depth| depth.set(depth.get() + 1));
-    let parsed = fork.parse::<T>()?;
-    SPECULATIVE_DEPTH.with(|depth| depth.set(depth.get() - 1));
-    Ok(parsed)
 }
 
 impl Parse for AssertStruct {
